@@ -57,6 +57,10 @@ func c07RowTotals(s *MultiItem) (count, sum, sumsq float64, mins, maxs []float64
 // count, min and max only; the concrete-value mode checks the sums
 var c07SymbolicValues bool
 
+// key set with a tag that carries both a mapped id and a raw string (RemoveStringTopTag yields one
+// when Tags[47] and STags[47] are both filled)
+var c07BothForms bool
+
 func c07Check(tag string, s *MultiItem, want *c07Totals) {
 	count, sum, sumsq, mins, maxs := c07RowTotals(s)
 	v.Assert("C07."+tag+".count_conserved", count == want.count)
@@ -78,8 +82,8 @@ func c07Check(tag string, s *MultiItem, want *c07Totals) {
 	}
 }
 
-// n events written into one string-top row: each event has a top key chosen among 3 keys (int,
-// 1-byte string) or none (tail), a value from {-3,5} (kept concrete so that sums stay linear terms) and an arbitrary count 1..16; capacity 1..2.
+// n events written into one string-top row: each event has a top key chosen among 3 keys (two ints and a
+// 1-byte string; in the both-forms harness: an int, the same int also carrying a raw string, a string) or none (tail), a value from {-3,5} (kept concrete so that sums stay linear terms) and an arbitrary count 1..16; capacity 1..2.
 // After every event and after FinishStringTop: count, sum, sum of squares, min, max over
 // Top u Tail equal those of all events written, for every outcome of the random draws and
 // every map iteration order. After finishing: at most `keep` top values remain, every retained
@@ -90,6 +94,10 @@ func c07Run(n int, withValues bool) {
 	var s MultiItem
 	capacity := 1 + v.Choice(2)
 	keys := []TagUnion{{I: 7}, {S: "x"}, {I: 9}}
+	if c07BothForms {
+		// the second key carries both forms: the mapped id wins (same top value as {I: 7})
+		keys = []TagUnion{{I: 7}, {I: 7, S: "y"}, {S: "x"}}
+	}
 	var want c07Totals
 	lastLog2 := 0
 	for e := 0; e < n; e++ {
@@ -156,6 +164,10 @@ func Harness_C07_minmax_3events() {
 	c07Run(3, true)
 }
 func Harness_C07_values_2events()   { c07Run(2, true) }
+func Harness_C07_values_3events_both_forms() {
+	c07BothForms = true
+	c07Run(3, true)
+}
 func Harness_C07_values_3events()   { c07Run(3, true) }
 func Harness_C07_counters_3events() { c07Run(3, false) }
 func Harness_C07_values_4events()   { c07Run(4, true) }
